@@ -128,7 +128,29 @@ def asTarget (j : Json) : R Target := do
   let nm ← match fldD j "name" Json.null with
     | .null => pure ""
     | x => asText x
-  pure { isPath := p, id := i, name := nm }
+  -- `via`: how a path target is handed over ("str" when absent; "Path" | "PathLike" | "bytes")
+  let viaStr ← match fldD j "via" Json.null with
+    | .null => pure true
+    | x => do let v ← asStr x; pure (v == "str")
+  pure { isPath := p, id := i, name := nm, asStr := viaStr || !p }
+
+/-- equality of file contents (for the answer "did this save change the file?") -/
+def h5Eq : H5 → H5 → Bool
+  | .empty, .empty => true
+  | .attrStr a, .attrStr b => a == b
+  | .attrArr s a, .attrArr t b => s == t && a == b
+  | .dset s a, .dset t b => s == t && a == b
+  | .dsetS s a, .dsetS t b => s == t && a.map (·.data) == b.map (·.data)
+  | .gnil, .gnil => true
+  | .gcons k a r, .gcons l b q => k == l && h5Eq a b && h5Eq r q
+  | _, _ => false
+
+def contentEq : Option Content → Option Content → Bool
+  | none, none => true
+  | some (.h5 a), some (.h5 b) => h5Eq a b
+  | some (.pkl a), some (.pkl b) => a == b
+  | some .dirty, some .dirty => true    -- nothing is known about it, before as after
+  | _, _ => false
 
 structure St where
   objs : Array (Kind × Val)
@@ -164,7 +186,9 @@ def session (j : Json) : R Json := do
             | x => asBool x
           let (fs', err, o') := saveC codec k st.fs t ft ov o
           let r := obj [("err", match err with | none => Json.null | some e => Json.str (errName e)),
-                        ("pure", Json.bool (o' == o))]
+                        ("pure", Json.bool (o' == o)),
+                        ("file", Json.str (if contentEq (FS.lookup st.fs t) (FS.lookup fs' t)
+                                           then "same" else "changed"))]
           st := { objs := st.objs.set! i (k, o'), fs := fs', out := st.out.push r }
     else if what = "load" then
       let k ← fld op "kind" >>= asStr >>= asKind
